@@ -493,6 +493,23 @@ async fn delete_segments(
         match topic.get_partition(segment_to_delete.partition_id) {
             Ok(partition) => {
                 let mut partition = partition.write().await;
+                // When every segment is about to go, create the one that takes over first:
+                // if the server dies in between, the partition must not be left without
+                // a segment and without a trace of the offsets it had already assigned.
+                let deletes_all_segments = partition.get_segments().iter().all(|segment| {
+                    segment_to_delete
+                        .start_offsets
+                        .contains(&segment.start_offset)
+                });
+                if let (true, Some(last_segment)) =
+                    (deletes_all_segments, partition.get_segments().last())
+                {
+                    let start_offset = last_segment.end_offset + 1;
+                    partition.add_persisted_segment(start_offset).await.with_error_context(|error| {
+                        format!("CHANNEL_COMMAND - failed to add persisted segment for stream with ID: {}, topic with ID: {}. {error}", topic.stream_id, topic.topic_id)
+                    })?;
+                }
+
                 let mut last_end_offset = 0;
                 for start_offset in &segment_to_delete.start_offsets {
                     let deleted_segment = partition.delete_segment(*start_offset).await.with_error_context(|error| {
